@@ -10,6 +10,8 @@ Spec oracle on the implementation's observed result.
   path  <gen> <kind> <i|f> <inst bounds,|-> <reader agg> <view -|n|c> <view agg> <d|c> | <values 1,> | <values 2,>
         => <err 0|1> none | S | G | H <bounds,> <counts,> <count> <sum> <min|-> <max|-> |
            E <scale> <posOff> <pos,> <negOff> <neg,> <zero> <count> <min|-> <max|-> <sum>
+  hcoll <gen> <f|i> <d|c> <limit> <bounds,> <noMinMax><noSum> | <op>… => <C <n> <point>×n>…
+        op: <attr>:<value> | c | n:<noMinMax><noSum> ; point: <attr> <bounds,> <counts,> <count> <sum> <min|-> <max|->
   coll  <gen> <d|c> <maxSize> <maxScale> <limit> <noMinMax> <noSum> | <op>… => <C <n> <point>×n>… | <out token per m op>…
         op: <attr>:f<bits> | c | n ; point (destination slot order): <attr> <scale> <posOff> <pos,> <negOff> <neg,>
         <zero> <count> <min bits|-> <max bits|-> <sum bits>
@@ -534,7 +536,20 @@ def stepPath (inp obs : List String) : Option Verdict :=
           | _, _, _, _, _, _ => none
         | _ => mk false false "hist" (showHist (histRun b vals))
       | .expo ms sc nmm ns =>
-        if vals.isEmpty then mk (o == ["none"]) (o == ["none"]) "expo-empty" "none" else
+        let f46 := Spec.custom_view_unvalidated vkind vagg
+        let known (ok : Bool) : String := if ok then "ok" else if f46 then "KNOWN:F46" else "FAIL"
+        let panicV (cls : String) : Option Verdict :=
+          some { agree := obs == [s!"panic:{cls}"], spec := known false, nontrivial := decide (vals.length ≥ 2),
+                 branches := ",".intercalate ([s!"expo-panic-{cls}", tagK, tagV] ++ tagR), model := s!"panic:{cls}" }
+        match expoOutcome ms sc (vals1 ++ vals2) with
+        | .panicMakeslice => panicV "makeslice"
+        | .panicIndex => panicV "index"
+        | .runs =>
+        let mkE (agree ok : Bool) (tag : String) (model : String) : Option Verdict :=
+          some { agree := agree && errOK, spec := known ok, nontrivial := decide (vals.length ≥ 2),
+                 branches := ",".intercalate ([tag, tagK, tagV] ++ tagI ++ tagR ++ (if f46 then ["F46"] else [])),
+                 model := model }
+        if vals.isEmpty then mkE (o == ["none"]) (o == ["none"]) "expo-empty" "none" else
         match o with
         | ["E", oscale, opo, opc, ono, onc, ozero, ocount, omin, omax, osum] =>
           match parseInt oscale, parseInt opo, parseCsvNat opc, parseInt ono, parseCsvNat onc, parseNat ozero,
@@ -543,6 +558,7 @@ def stepPath (inp obs : List String) : Option Verdict :=
             let vs := vals.map ofInt
             let pm := (run Spec.exactIdx ms.toNat sc (vs.map some)).1
             let pv := exportPoint nmm ns 0 pm
+            -- after a dropped value (only with unvalidated parameters) the sum/min/max are those of the recorded values
             let agree := pv.scale == scale && pv.pos == ⟨po, pc⟩ && pv.neg == ⟨no, nc⟩ && pv.zero == zc &&
               pv.count == count && pv.min == mn.map ofInt && pv.max == mx.map ofInt && dyEq pv.sum (sum, 0)
             let obsP : Expo := ⟨scale, ⟨po, pc⟩, ⟨no, nc⟩, zc, count, maxFloat, minFloat, (0, 0)⟩
@@ -552,10 +568,123 @@ def stepPath (inp obs : List String) : Option Verdict :=
               (if ns then sum == 0 else sum == vals.sum) &&
               (if nmm then mn.isNone && mx.isNone
                else mn == some (Spec.minList vals) && mx == some (Spec.maxList vals))
-            mk agree ok "expo" s!"{pm.scale} {showB pm.pos} {showB pm.neg} {pm.zero} {pm.count}"
+            mkE agree ok "expo" s!"{pm.scale} {showB pm.pos} {showB pm.neg} {pm.zero} {pm.count}"
           | _, _, _, _, _, _, _, _, _, _ => none
-        | _ => mk false false "expo" "-"
+        | _ => mkE false false "expo" "-"
     | _, _, _, _, _, _ => none
+  | _ => none
+
+
+/-! ## `hcoll`: explicit-bucket histogram, several attribute sets, re-used destination -/
+
+def parseHPoint : List String → Option HDPoint
+  | [a, b, c, n, sm, mn, mx] => do
+    let a ← parseNat a
+    let b ← parseCsvInt b
+    let c ← parseCsvNat c
+    let n ← parseNat n
+    let sm ← parseInt sm
+    let mn ← parseOptInt mn
+    let mx ← parseOptInt mx
+    pure ⟨a, n, b, c, sm, mn, mx⟩
+  | _ => none
+
+def parseHPoints : Nat → List String → Option (List HDPoint × List String)
+  | 0, r => some ([], r)
+  | n + 1, r => do
+    let p ← parseHPoint (r.take 7)
+    let (ps, rest) ← parseHPoints n (r.drop 7)
+    pure (p :: ps, rest)
+
+def parseHReports : Nat → List String → Option (List (List HDPoint))
+  | _, [] => some []
+  | 0, _ => none
+  | f + 1, "C" :: n :: r => do
+    let n ← parseNat n
+    let (ps, rest) ← parseHPoints n r
+    let more ← parseHReports f rest
+    pure (ps :: more)
+  | _, _ => none
+
+inductive RHOp
+  | meas (a : Nat) (v : Int)
+  | collect
+  | fresh (nmm ns : Bool)
+
+def parseRHOp (s : String) : Option RHOp :=
+  if s == "c" then some .collect
+  else match s.splitOn ":" with
+    | ["n", f] => match f.toList with
+      | [x, y] => some (.fresh (x == '1') (y == '1'))
+      | _ => none
+    | [a, v] => do
+      let a ← parseNat a
+      let v ← parseInt v
+      pure (.meas a v)
+    | _ => none
+
+def fillHOps : List RHOp → List (List HDPoint) → Option (List HOp)
+  | [], [] => some []
+  | .meas a v :: r, reps => (fillHOps r reps).map (HOp.meas a v :: ·)
+  | .fresh x y :: r, reps => (fillHOps r reps).map (HOp.fresh x y :: ·)
+  | .collect :: r, rep :: reps => (fillHOps r reps).map (HOp.collect (rep.map (·.attr)) :: ·)
+  | _, _ => none
+
+abbrev HLive := List (Nat × List Int)
+
+def hLiveAdd : HLive → Nat → Int → HLive
+  | [], a, x => [(a, [x])]
+  | (k, l) :: r, a, x => if k == a then (k, l ++ [x]) :: r else (k, l) :: hLiveAdd r a x
+
+/-- the clauses of the statement for one observed point with the values `vs` of its attribute set -/
+def hPointOracle (raw : List Int) (nmm ns : Bool) (vs : List Int) (o : HDPoint) : Bool :=
+  let obsH : Hist := ⟨o.counts, o.count, if ns then vs.sum else o.sum, o.min.getD (Spec.minList vs),
+                      o.max.getD (Spec.maxList vs)⟩
+  Spec.histOK raw o.bounds vs (some obsH) && (!ns || o.sum == 0) && (o.min.isNone == nmm) && (o.max.isNone == nmm)
+
+/-- oracle pass with the reference semantics of the attribute map (live sets since the last reset, overflow) -/
+def hOraclePass (delta : Bool) (limit : Nat) (raw : List Int) :
+    List RHOp → List (List HDPoint) → HLive → Bool × Bool → Bool → Bool
+  | [], [], _, _, acc => acc
+  | .meas a v :: r, reps, live, fl, acc =>
+    let e := if limit > 0 && !(live.any (·.1 == a)) && decide (live.length + 1 ≥ limit) then 0 else a
+    hOraclePass delta limit raw r reps (hLiveAdd live e v) fl acc
+  | .fresh x y :: r, reps, _, _, acc => hOraclePass delta limit raw r reps [] (x, y) acc
+  | .collect :: r, rep :: reps, live, fl, acc =>
+    let attrs := rep.map (·.attr)
+    let permOK := attrs.length == live.length && attrs.eraseDups.length == attrs.length &&
+      attrs.all (fun a => live.any (·.1 == a))
+    let ok := rep.all (fun o => hPointOracle raw fl.1 fl.2 (((live.find? (·.1 == o.attr)).map (·.2)).getD []) o)
+    hOraclePass delta limit raw r reps (if delta then [] else live) fl (acc && permOK && ok)
+  | _, _, _, _, _ => false
+
+def stepHColl (inp obs : List String) : Option Verdict :=
+  match inp with
+  | "hcoll" :: _ :: _ :: dc :: lim :: bs :: fl :: "|" :: opToks =>
+    match parseNat lim, parseCsvInt bs, fl.toList, opToks.mapM parseRHOp, parseHReports (obs.length + 1) obs with
+    | some limit, some raw, [x, y], some rops, some reps =>
+      match fillHOps rops reps with
+      | some ops =>
+        let delta := dc == "d"
+        let fin := hRun delta limit raw (x == '1') (y == '1') default ops
+        let agree := fin.reports == reps
+        let ok := hOraclePass delta limit raw rops reps [] (x == '1', y == '1') true
+        let nMeas := rops.countP (fun o => match o with
+          | .meas _ _ => true
+          | _ => false)
+        let tags := ["hcoll", if delta then "delta" else "cumulative"] ++
+          (if rops.any (fun o => match o with
+            | .fresh _ _ => true
+            | _ => false) then ["fresh-agg-flags"] else []) ++
+          (if reps.any (fun r => r.any (fun p => p.attr == 0)) then ["limit-overflow"] else []) ++
+          (if sortBounds raw != raw then ["unsorted"] else [])
+        some { agree := agree, spec := if ok then "ok" else "FAIL",
+               nontrivial := decide (reps.length ≥ 2) && decide (nMeas ≥ 2),
+               branches := ",".intercalate tags,
+               model := " ".intercalate (fin.reports.map (fun r => s!"C{r.length}:" ++ ";".intercalate (r.map (fun p =>
+                 s!"{p.attr}/{csv p.counts}/{p.count}/{p.sum}")))) }
+      | none => none
+    | _, _, _, _, _ => none
   | _ => none
 
 def stepValid (inp obs : List String) : Option Verdict :=
@@ -589,6 +718,7 @@ def stepLine (budget : Nat) (toks : List String) : Nat × Option Verdict :=
   | "coll" :: _ => let (b, v) := stepColl (budget + 10) inp obs; (b, v)
   | "hist" :: _ => (budget, stepHist inp obs)
   | "path" :: _ => (budget, stepPath inp obs)
+  | "hcoll" :: _ => (budget, stepHColl inp obs)
   | _ => (budget, stepValid inp obs)
 
 end Otel.C07.Drv
